@@ -33,6 +33,17 @@ values assume exactly that at every raise site).  Executed as the code they stan
 single-yield @contextmanager generator (`s_With`), `for` / list comprehension over an uncontracted generator helper (`loop_over_helper`,
 push form), invariant-less search loops over a symbolic sequence (`search_loop`, exact), `f(**dict_of_known_keys)`, zero-argument
 `super().__init__` in exception classes.  Each falls back to out-of-subset / the tagged havoc cut on any other shape.
+
+Round 7 (deepening): `_build_children_url` VERIFIED (Graph path of exactly the folder asked for + optional query, a function of
+its three arguments, no effect) -- it was an assumed abstraction; callers keep the opaque name CU / CUROOT of it.  New contracts
+on functions that used to be executed in place inside every caller: `_ensure_token` (cached token reused without a request,
+absent one fetched once and cached, failure leaves the cache as it was), `_get_headers` (`Authorization: Bearer <cached token>`),
+and `_get_json` now proves that the request it hands to `_send` carries that header.  Part F: `SharePointRestClient.__init__`
+(caches start empty, transport / credentials are the ones given) -- the deductive counterpart of the syntactic
+`caches-start-empty` typestate.  Executor: a pure boolean case split inside a comprehension element is one If-term
+(`merge_bool_forks`; exhaustiveness of the branch conditions is proved), `item["key"]` on parsed JSON (TypeError / KeyError /
+member): the causes of seeds C18_11 and C18_2 are now refuted by `FileFilter.matches/returns` and
+`_get_folders_from_url/inv-preserve#items` instead of `out-of-subset`.
 """
 import z3
 
@@ -3022,11 +3033,27 @@ def part_c(reg):
             raise ops.Unsupported("the lookup URL does not end with the percent-encoded path")
         return UNQUOTE(last) == STRIPS(c.args["folder_path"].t)
 
+    def gfp_resource(c):
+        """Round 7: what precedes the encoded path is the Graph item-by-path address of the root of exactly the drive asked
+        for -- `<v1.0>/sites/{site}/drive/root:/` or `<v1.0>/sites/{site}/drives/{drive}/root:/` (format written here from the
+        Graph documentation).  With the clause above the lookup URL is fully determined: nothing of its format is trusted."""
+        urls = c.st.ghost.get("requested", ())
+        if len(urls) != 1 or not isinstance(urls[0], VStr):
+            raise ops.Unsupported("folder lookup does not make exactly one JSON request with a string URL")
+        parts = str_parts(urls[0].t)
+        if len(parts) < 2:
+            return z3.BoolVal(False)
+        drv = c.args["drive_id"]
+        want = z3.Concat(sv(GRAPH_V1 + "/sites/"), c.args["site_id"].t,
+                         sv("/drive") if isinstance(drv, VNoneT) else z3.Concat(sv("/drives/"), drv.t), sv("/root:/"))
+        return mk_concat(parts[:-1]) == want
+
     out.append(FnContract(
         target=f"{CLIENT}::SharePointRestClient._get_folder_by_path",
         params=[("self", CL), ("site_id", p_str()), ("folder_path", p_str()), ("drive_id", P_DRIVE)],
         returns=gfp_returns, ensures=[("returns-None-or-a-folder-item", gfp_shape), ("responses-closed", closed),
-                                      ("the-request-addresses-the-requested-path-(percent-decoding-gives-it-back)", body_only(gfp_addresses))],
+                                      ("the-request-addresses-the-requested-path-(percent-decoding-gives-it-back)", body_only(gfp_addresses)),
+                                      ("the-request-addresses-the-item-by-path-resource-of-the-drive-asked-for-(graph-path)", body_only(gfp_resource))],
         raises=listing_raises(),
         modifies=("self",), frame=token_frame,
         note="body verified for shape and failure surface (404 -> None, everything else: client family, responses closed); "
@@ -3468,8 +3495,8 @@ def known_findings(kf, violations, repo, tier):
 
 
 def native_listing_suite(repo, tier):
-    """BOUNDED stand-in for the parts that are only assumed symbolically (URL formats of _build_children_url and of the folder
-    lookup, the server's routing, lazy generator interleavings): the replayer's suite -- random and crafted fake Graph libraries,
+    """BOUNDED stand-in for the parts that are only assumed symbolically (URL format of the folder lookup, the server's routing,
+    lazy generator interleavings; the children URL is verified since round 7 and merely cross-checked here): the replayer's suite -- random and crafted fake Graph libraries,
     every filter kind, fault injection at every request index -- run natively against the real code on every check."""
     import json
     import os
@@ -3509,8 +3536,10 @@ TRUSTED = [
     "GRAPH-SHAPE: a body that parses as JSON is a JSON object; `value` is an array; name / id / @odata.nextLink / access_token are "
     "strings when present; a folder item found by path has a non-empty id (natively: `[]`, `null`, {\"value\": null} give "
     "AttributeError / TypeError outside the client family -- outside the statement's fault kinds, reported)",
-    "URL formats (_build_children_url, folder lookup by path) are opaque functions of (site, drive, id / path): their Graph syntax is "
-    "exercised only by the replayer's fake server",
+    "URL format of the folder lookup by path: an opaque function of (site, drive, path) whose percent-decoding gives the path back "
+    "(round 4 clause); the Graph syntax around it is exercised only by the replayer's fake server.  (The children URL is no longer "
+    "trusted: `_build_children_url` is verified against the Graph path format since round 7; the listing layer uses the opaque "
+    "name CU / CUROOT of that verified function.)",
     "PY-GEN: a generator under contract is used by its caller through the sequence it yields (eager view); interleavings are covered "
     "natively by the fault-injection replay",
 ]
@@ -3524,8 +3553,11 @@ ASSUMED_MODELS = [
     "json.loads / json.dumps, bytes.decode, str.encode, str.lower (uninterpreted), fnmatch.fnmatch (uninterpreted), urllib.parse "
     "urlparse / quote / urlencode (uninterpreted, total), urllib.request.Request (full_url = url given; assumed not to raise), "
     "datetime.fromisoformat (ValueError iff not accepted)",
-    "SharePointRestClient._build_children_url (assumed abstraction), FileFilter.matches / get_target_folders at the listing level "
-    "(abstract MATCHES / target list; matches has its own contract in Part A)",
+    "call-site views of VERIFIED contracts (abstractions, not assumptions): FileFilter.matches / get_target_folders at the listing "
+    "level are the abstract MATCHES / target list (own contracts in Part A); _build_children_url is the opaque CU / CUROOT of its "
+    "verified Graph-path contract (round 7)",
+    "urllib.request.Request(url, headers=..): the Authorization header of the new object is the dict entry given (definition on a "
+    "fresh object, like full_url)",
 ]
 ASSUMPTIONS = [
     "PY-STR, PY-INT, PY-EXC, PY-ORDER, PY-REC (partial correctness of the recursive walk), PY-LOG (logger calls dropped)",
@@ -3562,7 +3594,7 @@ MANIFEST_ENTRY = dict(
          "walk yield exactly the files of an abstract page chain / folder tree in order (loop invariants, modular recursion); "
          "caches are written only after a successful checked response; only the client's exception family escapes.",
     note="Assumed: ISO-8601 semantics + fromisoformat exact on six-digit fractions, deterministic finite acyclic server (T-DET/T-FIN/"
-         "TREE-FINITE), GRAPH-SHAPE, transport raises only HTTPError/URLError (others escape unchanged, responses closed), URL formats "
-         "opaque, eager generator view; pyvc engine, z3.",
+         "TREE-FINITE), GRAPH-SHAPE, transport raises only HTTPError/URLError (others escape unchanged, responses closed), URL format of "
+         "the folder lookup by path opaque (the children URL is verified), eager generator view; pyvc engine, z3.",
     technique="contract-based deductive verification: AST->VC generation over the real source, string/sequence/recfun VCs in z3",
     design="DESIGN.md §3 C18")
